@@ -64,6 +64,9 @@ def check_plan(reader, D, pl, allocator=None):
     g = min(gulp, eff)
     labels = []
     kwargs = {"gulp": gulp, "start": start, "nsamps": nsamps, "skipback": skipback, "quiet": True, "description": "verif"}
+    kwargs = vs.as_np_ints(kwargs, pl.get("np_ints"))
+    if pl.get("np_ints"):
+        labels.append("numpy_int_arguments")
     if allocator is not None:
         kwargs["allocator"] = allocator
     blocks = []
@@ -195,6 +198,9 @@ def strat_random(tier):
         for pl in plans[:-1]:
             if draw(st.integers(0, 3)) == 0:
                 pl["abandon"] = draw(st.integers(1, 3))
+        for pl in plans:
+            if draw(st.integers(0, 4)) == 0:
+                pl["np_ints"] = True
         return {"layout": lay, "plans": plans, "np_alloc": draw(st.sampled_from([False, False, False, True]))}
 
     return s()
